@@ -19,7 +19,7 @@ ASSUME = ["R1 re-implements 'first template, in configuration order, whose every
           "an untyped Sid built from 'type:body' may keep either the whole input or the body as its string (statement silent)",
           "strings containing '?' are only judged for 'does not raise' here (C04/C07 own them)"]
 
-BUDGET = {"quick": 40000, "thorough": 640000}
+BUDGET = {"quick": 40000, "thorough": 2400000}
 NSHARDS = 16
 
 
